@@ -104,18 +104,18 @@ func (s *Store) GetMessage(mailbox, id string) (m storage.Message, err error) {
 		}
 		count := len(ms)
 		if count == 0 {
-			return nil, nil
+			return nil, storage.ErrNotExist
 		}
 		return ms[count-1], nil
 	}
+	var found *Message
 	s.withMailbox(mailbox, false, func(mb *mbox) {
-		var ok bool
-		m, ok = mb.messages[id]
-		if !ok {
-			m = nil
-		}
+		found = mb.messages[id]
 	})
-	return m, err
+	if found == nil {
+		return nil, storage.ErrNotExist
+	}
+	return found, nil
 }
 
 // GetMessages gets a list of messages.
@@ -134,12 +134,16 @@ func (s *Store) GetMessages(mailbox string) (ms []storage.Message, err error) {
 
 // MarkSeen marks a message as having been read.
 func (s *Store) MarkSeen(mailbox, id string) error {
+	var found *Message
 	s.withMailbox(mailbox, true, func(mb *mbox) {
-		m := mb.messages[id]
-		if m != nil {
-			m.seen = true
+		found = mb.messages[id]
+		if found != nil {
+			found.seen = true
 		}
 	})
+	if found == nil {
+		return storage.ErrNotExist
+	}
 	return nil
 }
 
@@ -188,9 +192,10 @@ func (s *Store) removeMessage(mailbox, id string) *Message {
 // RemoveMessage deletes a single message.
 func (s *Store) RemoveMessage(mailbox, id string) error {
 	m := s.removeMessage(mailbox, id)
-	if m != nil {
-		s.enforcerRemove(m)
+	if m == nil {
+		return storage.ErrNotExist
 	}
+	s.enforcerRemove(m)
 	return nil
 }
 
